@@ -430,7 +430,7 @@ func checkProperty(prop, only string) int {
 		perH = 90 * time.Second
 	}
 	for _, n := range names {
-		h := &Harness{ID: n, Prop: prop, Fn: ld.harness[n], Unwind: 64, MaxPaths: cfg.maxPaths, Budget: cfg.budget}
+		h := &Harness{ID: n, Prop: prop, Fn: ld.harness[n], Unwind: 64, MaxPaths: cfg.maxPaths, Budget: cfg.budget, HangIsViolation: harnessComment(ld, n, "// hang: violation")}
 		r := e.Explore(h, perH)
 		results = append(results, r)
 		fmt.Fprintf(os.Stderr, "gosym: %s: paths %v covers %v wall %.1fs\n", n, r.Paths, r.Covers, r.WallS)
@@ -477,11 +477,38 @@ func expectedCovers(ld *loaded, harness string) []string {
 	return out
 }
 
+// harnessComment reports whether the comment block above the harness contains the line.
+func harnessComment(ld *loaded, harness, line string) bool {
+	for _, f := range ld.files {
+		src, err := os.ReadFile(f.real)
+		if err != nil {
+			continue
+		}
+		s := string(src)
+		idx := strings.Index(s, "func "+harness+"(")
+		if idx < 0 {
+			continue
+		}
+		lines := strings.Split(strings.TrimRight(s[:idx], "\n"), "\n")
+		for k := len(lines) - 1; k >= 0; k-- {
+			l := strings.TrimSpace(lines[k])
+			if !strings.HasPrefix(l, "//") {
+				break
+			}
+			if l == line {
+				return true
+			}
+		}
+	}
+	return false
+}
+
 func report(prop string, ld *loaded, ws []*Worker, results []*HarnessResult, known map[string]knownFinding, wall float64) int {
 	exit := 0
 	var violations []*Failure
 	knownHit := map[string]*Failure{}
 	confirmedPer := map[string]int{}
+	hangsTried := map[string]int{}
 	unconfirmed := 0
 	replayed := 0
 	incomplete := false
@@ -530,9 +557,12 @@ func report(prop string, ld *loaded, ws []*Worker, results []*HarnessResult, kno
 				}
 				continue
 			}
-			// a new violation: confirm natively (at most 3 per harness)
-			if confirmedPer[r.Harness] >= 3 {
+			// a new violation: confirm natively (at most 3 per harness; one candidate hang, which costs 120 s)
+			if confirmedPer[r.Harness] >= 3 || (f.Kind == "hang" && hangsTried[r.Harness] >= 1) {
 				continue
+			}
+			if f.Kind == "hang" {
+				hangsTried[r.Harness]++
 			}
 			rp := filepath.Join(verifDir, "replays", prop, fmt.Sprintf("%s-%d.json", r.Harness, n))
 			writeReplay(rp, f)
@@ -639,7 +669,7 @@ func sumPaths(m map[string]int) int {
 func confirms(f *Failure, out, detail string) bool {
 	switch out {
 	case "hang":
-		return true
+		return f.Kind == "hang"
 	case "panic":
 		return f.Kind == "panic"
 	case "fail":
